@@ -34,6 +34,13 @@ class C07(SimCheck):
         if rs.random() < 1 / 6:
             cfg.update(p_hook=max(cfg["p_hook"], 0.3), p_hook_stall=0.3, hook_stall_s=rs.choice([1.5, 4.0, 8.0]) * cfg["hb"],
                        max_breaks=max(cfg["max_breaks"], 1), profile="stalled_hooks")
+            if rs.random() < 0.5:
+                # the hooks of a disconnect in particular (a watchdog's disconnect of a half-open connection is
+                # still inside the application's callback when the next connection is up and recovering)
+                cfg.update(stall_hooks=["on_disconnect", "on_state_change"], p_hook_stall=0.6, half_open=True,
+                           hb=rs.choice([1, 2]), max_breaks=max(cfg["max_breaks"], 2))
+                cfg["hook_stall_s"] = rs.choice([4.0, 8.0, 12.0]) * cfg["hb"]
+                cfg["settle_s"] = max(cfg["settle_s"], 8.0 * cfg["hb"] + 14.0)
         return cfg
 
     def make_sim(self, cfg, trace=None):
